@@ -48,6 +48,12 @@ fn main() {
                 profile: arg_val(&args, "--profile").unwrap_or_else(|| "release".into()),
                 scale: arg_val(&args, "--scale").and_then(|s| s.parse().ok()).unwrap_or(1.0),
             };
+            // configuration dimension: the global log level. Odd shards run with the maximum level at
+            // Trace (no logger installed, so nothing is printed, but every log macro evaluates its
+            // arguments) - behaviour must not depend on it.
+            if cfg.shard % 2 == 1 {
+                log::set_max_level(log::LevelFilter::Trace);
+            }
             let t0 = Instant::now();
             let Some(mut rep) = checks::run(&id, &cfg) else {
                 eprintln!("unknown check {}", id);
